@@ -11,6 +11,7 @@ package main
 
 import (
 	"fmt"
+	"os"
 	"go/types"
 	"sort"
 	"strings"
@@ -26,7 +27,9 @@ var errDiscExempt = map[string]string{
 }
 
 func errorDiscipline(r *Run, p *Prog, T *Terms, rule string, fns []*ssa.Function) {
-	sort.Slice(fns, func(i, j int) bool { return fns[i].Pos() < fns[j].Pos() })
+	// (the functions as built: the rule is about what one function does with the errors it sees; what a callee does
+	// with its own errors - turning a parse failure into "no activation listener" - is judged in the callee)
+	sort.SliceStable(fns, func(i, j int) bool { return fns[i].Pos() < fns[j].Pos() })
 	nCalls := 0
 	for _, f := range fns {
 		if len(f.Blocks) == 0 {
@@ -93,7 +96,15 @@ func errorDiscipline(r *Run, p *Prog, T *Terms, rule string, fns []*ssa.Function
 								"a result of "+calleeName(&c.Call)+" is used although its error is never looked at: after a failure the value is nil/zero")
 						}
 					}
-					if repoCall {
+					anyUsed := false
+					for _, v := range others {
+						for _, ref := range *v.Referrers() {
+							if _, isDbg := ref.(*ssa.DebugRef); !isDbg {
+								anyUsed = true
+							}
+						}
+					}
+					if repoCall && !anyUsed {
 						nCalls++
 						r.Ob(rule, shortName(f), fmt.Sprintf("the error of %s is looked at", calleeName(&c.Call)), c.Pos(), false,
 							"the error result of "+calleeName(&c.Call)+" is dropped: a failed operation of the library itself goes unreported")
@@ -125,13 +136,18 @@ func errorDiscipline(r *Run, p *Prog, T *Terms, rule string, fns []*ssa.Function
 						if !isK || !k.IsNil() {
 							continue
 						}
-						okv := hasFact(T.FactsAt(rv.Ret.Block()), "EQ", eT, "nil")
+						okv := errKnownNil(p, T, T.FactsAt(rv.Ret.Block()), eT)
 						r.Ob(rule, shortName(f), fmt.Sprintf("success is returned only where the error of %s (call #%d) is known to be nil", name, ord), rv.Ret.Pos(), okv,
 							"a `return ..., nil` is reachable although "+name+" may have failed: the failure is reported as success (flipped or missing test, or nil returned on the failure branch)")
 					}
 				}
 				// E2
 				for _, v := range others {
+					switch v.Type().Underlying().(type) {
+					case *types.Pointer, *types.Interface, *types.Slice, *types.Map, *types.Signature, *types.Chan:
+					default:
+						continue // a number or truth value handed back next to the error is meaningful on its own (n, stop)
+					}
 					for _, ref := range *v.Referrers() {
 						if _, isDbg := ref.(*ssa.DebugRef); isDbg {
 							continue
@@ -152,6 +168,9 @@ func errorDiscipline(r *Run, p *Prog, T *Terms, rule string, fns []*ssa.Function
 							if _, isVar := st.Addr.(*ssa.Alloc); isVar {
 								continue // the definition of a (captured) variable: `v, err := f()` spills v at once
 							}
+							if _, isVar := st.Addr.(*ssa.FreeVar); isVar {
+								continue // ... or assigns the variables of the enclosing function (`n, ioErr = conn.Write(buf)`)
+							}
 							// stored next to the error in one value (`ch <- result{v, err}`)
 							if fa, ok := st.Addr.(*ssa.FieldAddr); ok {
 								next := false
@@ -170,7 +189,33 @@ func errorDiscipline(r *Run, p *Prog, T *Terms, rule string, fns []*ssa.Function
 						if _, isPhi := ref.(*ssa.Phi); isPhi {
 							continue // merged with other values: judged at the uses of the merge by the property's own rules
 						}
-						okv := hasFact(T.FactsAt(ref.Block()), "EQ", eT, "nil")
+						// converted and then handed on together with the error (`return v.(int), err`)
+						if cv, isV := ref.(ssa.Value); isV {
+							switch ref.(type) {
+							case *ssa.TypeAssert, *ssa.ChangeType, *ssa.Convert, *ssa.ChangeInterface, *ssa.MakeInterface:
+								only := cv.Referrers() != nil && len(*cv.Referrers()) > 0
+								for _, r2 := range *cv.Referrers() {
+									ret, isRet := r2.(*ssa.Return)
+									with := false
+									if isRet {
+										for _, x := range ret.Results {
+											if x == e {
+												with = true
+											}
+										}
+									}
+									if !with {
+										if _, isDbg := r2.(*ssa.DebugRef); !isDbg {
+											only = false
+										}
+									}
+								}
+								if only {
+									continue
+								}
+							}
+						}
+						okv := errKnownNil(p, T, T.FactsAt(ref.Block()), eT)
 						r.Ob(rule, shortName(f), fmt.Sprintf("result #%d of %s (call #%d) is used only where its error is known to be nil", v.(*ssa.Extract).Index, name, ord), ref.Pos(), okv,
 							"a result of "+name+" is used on a path on which the call may have failed (flipped or missing error test): the value is nil/zero or partial there")
 					}
@@ -213,4 +258,58 @@ func serviceSideFuncs(p *Prog, ro *Roles) map[*ssa.Function]bool {
 		}
 	}
 	return out
+}
+
+// errorMapper: g takes one error and returns one error, and every value it returns is its parameter or a non-nil
+// sentinel (a package-level error variable): `func unexpectedEOF(err error) error { if err == io.EOF { return
+// io.ErrUnexpectedEOF }; return err }`. Its result is nil exactly when its argument is.
+func errorMapper(p *Prog, T *Terms, g *ssa.Function) bool {
+	if g == nil || !p.InRepo(g) || len(g.Blocks) == 0 || len(g.Params) != 1 || g.Signature.Results().Len() != 1 {
+		return false
+	}
+	if !isErrorType(g.Params[0].Type()) || !isErrorType(g.Signature.Results().At(0).Type()) {
+		return false
+	}
+	for _, rv := range returnedValues(g, 0) {
+		if rv.Val == ssa.Value(g.Params[0]) {
+			continue
+		}
+		if strings.Contains(strip(T.T(rv.Val)), "global:") {
+			// only where the argument is not nil
+			if hasFact(T.FactsAt(rv.Ret.Block()), "EQ", T.T(g.Params[0]), "nil") {
+				return false
+			}
+			continue
+		}
+		return false
+	}
+	return true
+}
+
+// errKnownNil: the facts say that the error with term eT is nil - directly, or through an error mapper applied to it.
+func errKnownNil(p *Prog, T *Terms, fs []Fact, eT string) bool {
+	if hasFact(fs, "EQ", eT, "nil") {
+		return true
+	}
+	for _, f := range fs {
+		if os.Getenv("VLDEBUG") == "errnil" {
+			fmt.Fprintf(os.Stderr, "errKnownNil eT=%s fact %s %s %s\n", eT, f.Op, f.A, f.B)
+		}
+		if f.Op != "EQ" {
+			continue
+		}
+		for _, pr := range [][2]string{{f.A, f.B}, {f.B, f.A}} {
+			t0, e0 := strip(pr[0]), strip(eT)
+			if pr[1] != "nil" || !strings.HasPrefix(t0, "call:") || !strings.HasSuffix(t0, "("+e0+")") {
+				continue
+			}
+			name := strings.TrimSuffix(strings.TrimPrefix(t0, "call:"), "("+e0+")")
+			for _, g := range p.Funcs {
+				if funcFullName(g) == name && errorMapper(p, T, g) {
+					return true
+				}
+			}
+		}
+	}
+	return false
 }
